@@ -17,6 +17,10 @@ type layer struct {
 	n       int
 	gen     func(i int) (name string, code []byte)
 	configs func(i int) []config
+	// layer F only: the child contract installed next to the program, and the child of the control run (same
+	// parent, child = the bare failure) together with a key under which the control result may be cached
+	aux     func(i int) []byte
+	control func(i int) (key string, aux []byte)
 }
 
 // ---- entry configurations ----
@@ -572,4 +576,101 @@ func createMatrix() []config {
 		{entry: entCreate, gas: 10000000, value: 0},
 		{entry: entCall, gas: 200000, value: 0},
 	}
+}
+
+// ---- layer F: what a FAILED child did before failing must not matter to its parent ----
+//
+// parent = CALLKIND(child, gas 2,000,000) ; SSTORE(1 := status) ; SSTORE(0 := 1) ; STOP
+// child  = <prefix> ; <failure>      for every prefix of <= 2 symbols and every failure kind.
+// Differential oracle (worker): whenever the child of the prefixed run failed (status 0), everything observable
+// about the transaction equals the control run whose child is the bare <failure>.
+
+type failKind struct {
+	name   string
+	code   []byte
+	revert bool // keeps the gas it did not use: gas left is not compared
+}
+
+func failKinds() []failKind {
+	return []failKind{
+		{"INVALID", op(opINVALID), false},
+		{"REVERT(0,0)", cat(push1(0), push1(0), op(evm.REVERT)), true},
+		{"out-of-gas(MLOAD 2^32-1)", cat(pushN([]byte{0xff, 0xff, 0xff, 0xff}), op(evm.MLOAD)), false},
+		{"stack-underflow(POP x3)", cat(op(evm.POP), op(evm.POP), op(evm.POP)), false},
+		{"bad-jump(0xff)", cat(push1(0xff), op(evm.JUMP)), false},
+	}
+}
+
+func prefixAlphabet() []instr {
+	a := seqAlphabet()
+	a = append(a,
+		instr{"ISSUE(5)", cat(push1(5), op(evm.ISSUE))},
+		instr{"TRANSFERTOKEN(0x20,tkn,1)", cat(push1(0x20), pushAddr(aTkn), push1(1), op(evm.TRANSFERTOKEN))},
+		instr{"TRANSFERTOKEN(0x20,lkc,1)", cat(push1(0x20), push1(0), push1(1), op(evm.TRANSFERTOKEN))},
+		instr{"SSTORE(0:=2)", cat(push1(2), push1(0), op(evm.SSTORE))},
+		instr{"LOG1(0,0x20,aa)", cat(push1(0xaa), push1(0x20), push1(0), op(evm.LOG1))},
+		instr{"CALL(storer,v0,allgas)", callMacro(evm.CALL, &aStorer, 0, gasAll)},
+		instr{"CALL(issuer,v0,allgas)", callMacro(evm.CALL, &aIssuer, 0, gasAll)},
+		instr{"DELEGATECALL(issuelib,allgas)", callMacro(evm.DELEGATECALL, &aIssueLib, 0, gasAll)},
+		instr{"CALL(0xff,v1,allgas)", callMacro(evm.CALL, &aSmallFF, 1, gasAll)},
+		instr{"SELFDESTRUCT(0xff)", cat(push1(0xff), op(evm.SELFDESTRUCT))},
+	)
+	return a
+}
+
+type failProg struct {
+	name        string
+	parent      []byte
+	child       []byte
+	controlKey  string
+	controlCode []byte
+	revert      bool
+}
+
+func failPrograms() []failProg {
+	sigma := prefixAlphabet()
+	var prefixes []program
+	prefixes = append(prefixes, program{})
+	for _, a := range sigma {
+		prefixes = append(prefixes, program{a})
+	}
+	for _, a := range sigma {
+		for _, b := range sigma {
+			prefixes = append(prefixes, program{a, b})
+		}
+	}
+	gas := pushN([]byte{0x1e, 0x84, 0x80}) // 2,000,000: a fixed amount, all of it consumed by a child that fails hard
+	tail := cat(push1(1), op(evm.SSTORE), push1(1), push1(0), op(evm.SSTORE), op(evm.STOP))
+	type pk struct {
+		name string
+		code []byte
+	}
+	var parents []pk
+	for _, k := range []struct {
+		op evm.OpCode
+		v  []byte
+		n  string
+	}{{evm.CALL, []byte{0}, "CALL(child,v0)"}, {evm.CALL, []byte{1}, "CALL(child,v1)"}, {evm.CALLCODE, []byte{0}, "CALLCODE(child,v0)"},
+		{evm.DELEGATECALL, nil, "DELEGATECALL(child)"}, {evm.STATICCALL, nil, "STATICCALL(child)"}} {
+		c := cat(push1(0x20), push1(0), push1(0), push1(0))
+		if k.v != nil {
+			c = append(c, push1(k.v[0])...)
+		}
+		c = cat(c, pushAddr(aAux), gas, op(k.op), tail)
+		parents = append(parents, pk{k.n, c})
+	}
+	var out []failProg
+	for _, par := range parents {
+		for _, f := range failKinds() {
+			for _, pre := range prefixes {
+				n := par.name + " ; SSTORE(1:=status) ; SSTORE(0:=1) || child = " + pre.String() + " ; " + f.name
+				out = append(out, failProg{n, par.code, cat(pre.bytes(), f.code), par.name + "|" + f.name, f.code, f.revert})
+			}
+		}
+	}
+	return out
+}
+
+func failMatrix() []config {
+	return []config{{entry: entCall, gas: 10000000, value: 1}, {entry: entUTXOCall, gas: 10000000, value: 1000}}
 }
